@@ -1201,7 +1201,7 @@ pub fn rsample_write(seed: u64, count: usize, dir: &std::path::Path) -> Value {
         std::fs::write(d.join("Cargo.toml"), format!("[package]\nname = \"rsample_{sub}\"\nversion = \"0.0.0\"\nedition = \"2021\"\n\n[workspace]\n\n[dependencies]\nlogos = {{ path = \"/repo\" }}\n\n[profile.dev]\ndebug = 0\nincremental = false\n\n[profile.dev.build-override]\nopt-level = 2\n")).unwrap();
         std::fs::create_dir_all(d.join(".cargo")).unwrap();
         std::fs::write(d.join(".cargo/config.toml"), "[net]\noffline = true\n").unwrap();
-        let _ = std::fs::copy("/verif/harness/Cargo.lock", d.join("Cargo.lock"));
+        let _ = std::fs::copy(format!("{}/harness/Cargo.lock", crate::verif_root()), d.join("Cargo.lock"));
     }
     let v = json!({"modules": index});
     std::fs::write(dir.join("index.json"), serde_json::to_string(&v).unwrap()).unwrap();
